@@ -46,6 +46,16 @@ def notrace():
     return _notrace()
 
 
+def resumed():
+    """Context manager: re-enable CrossHair's tracer inside a notrace() block (for one symbolic comparison)."""
+    try:
+        from crosshair.tracers import ResumedTracing
+        return ResumedTracing()
+    except Exception:
+        import contextlib
+        return contextlib.nullcontext()
+
+
 def cz(x, lo, hi):
     """Concretise a bounded symbolic int by exhaustive forking (lo..hi inclusive).
 
@@ -101,7 +111,7 @@ def fail(clause, detail=''):
         raise IgnoreAttempt('assumed away: known finding ' + clause)
     with _notrace():
         try:
-            d = str(detail)[:300]
+            d = str(detail)[:700]
         except Exception:
             d = '<unprintable>'
         STATE['fail'] = (clause, d)
